@@ -1,7 +1,7 @@
 (* Proofs/LagrTensor.v — tensor-product lemmas about the executable interpolator model (Model/Lagr.v)
    at mc_ops F for an arbitrary realFieldType F. *)
 From mathcomp Require Import all_ssreflect all_algebra.
-From AmiscV Require Import Field Lagr LagrDefs.
+From AmiscV Require Import Field Lagr LagrDefs Lagr1d.
 Set Implicit Arguments. Unset Strict Implicit. Unset Printing Implicit Defensive.
 Import GRing.Theory Num.Theory.
 Local Open Scope ring_scope.
@@ -45,6 +45,12 @@ Lemma nth_chunks n sz (l : seq A) j :
 Proof.
 by move=> jn; rewrite chunksE (nth_map 0%N) ?size_iota // nth_iota // add0n.
 Qed.
+
+Lemma take_zip n (s : seq A) (t : seq B) : take n (zip s t) = zip (take n s) (take n t).
+Proof. by elim: n s t => [|n IH] [|a s] [|b t] //=; rewrite IH. Qed.
+
+Lemma drop_zip n (s : seq A) (t : seq B) : drop n (zip s t) = zip (drop n s) (drop n t).
+Proof. by elim: n s t => [|n IH] [|a s] [|b t] //=; [case: (drop n t) | case: (drop n s)]. Qed.
 
 (* the j-th block of a concatenation of rows of equal length *)
 Lemma take_drop_flatten sz (ss : seq (seq A)) j :
@@ -137,6 +143,120 @@ apply: eq_bigr => j _.
 rewrite take_drop_flatten ?size_map //; last first.
   by apply: In_map_all => xk; rewrite size_map size_tensor_data.
 rewrite !(nth_map 0) // tlagrange_scale mulrCA mulrA; congr (_ * _).
+Qed.
+
+(* ------------------------------------------------------------------ interpolation of the grid data *)
+Lemma tlagrange_interpolates gs (f : seq F -> F) x :
+  (forall g, g \in gs -> uniq g.2.1) -> size x = size gs ->
+  (forall k, (k < size gs)%N -> nth 0 x k \in (nth (0, ([::], [::])) gs k).2.1) ->
+  tlagrange gs x (grid_data gs f) = f x.
+Proof.
+elim: gs f x => [|[tol [xs ws]] gs IH] f x Hu; first by case: x.
+case: x => [|x0 x] // [sx] Hin /=.
+have x0in : x0 \in xs by exact: (Hin 0%N).
+have Uxs : uniq xs by apply: (Hu (tol, (xs, ws))); rewrite inE eqxx.
+have IH' f' : tlagrange gs x (grid_data gs f') = f' x.
+  apply: IH => // [g gin|k klt]; first by apply: Hu; rewrite inE gin orbT.
+  exact: (Hin k.+1).
+rewrite (eq_bigr (fun j : 'I_(size xs) => (lbase xs (nth 0 xs j)).[x0] * f (nth 0 xs j :: x))); last first.
+  move=> j _; rewrite take_drop_flatten ?size_map //; last first.
+    by apply: In_map_all => xk; rewrite size_grid_data.
+  by rewrite (nth_map 0) // IH'.
+have ilt : (index x0 xs < size xs)%N by rewrite index_mem.
+rewrite (bigD1 (Ordinal ilt)) //= nth_index // lbase_eq mul1r big1 ?addr0 // => j ne.
+rewrite lbase_neq ?mul0r //; apply: contraNneq ne => x0E.
+by apply/eqP/val_inj => /=; rewrite x0E index_uniq.
+Qed.
+
+(* ------------------------------------------------------------------ tpredict is linear in the data *)
+Local Notation lin a ys zs := [seq a * y.1 + y.2 | y <- zip ys zs].
+
+Lemma sum_chunks_lin (T : seq F -> F) sz (a : F) :
+  (forall ys zs, size ys = sz -> size zs = sz -> T (lin a ys zs) = a * T ys + T zs) ->
+  forall n (bs : seq F) ys zs, size ys = (n * sz)%N -> size zs = (n * sz)%N ->
+  sumF K (map2 (fun b ch => b * T ch) bs (chunks n sz (lin a ys zs))) =
+  a * sumF K (map2 (fun b ch => b * T ch) bs (chunks n sz ys)) +
+  sumF K (map2 (fun b ch => b * T ch) bs (chunks n sz zs)).
+Proof.
+move=> HT; elim=> [|n IH] bs ys zs sy sz_.
+  by case: bs => [|b bs] /=; rewrite mulr0 addr0.
+case: bs => [|b bs] /=; first by rewrite mulr0 addr0.
+rewrite !firstn_take !skipn_drop -map_take -map_drop take_zip drop_zip.
+have sty : size (take sz ys) = sz by rewrite size_takel // sy mulSn leq_addr.
+have stz : size (take sz zs) = sz by rewrite size_takel // sz_ mulSn leq_addr.
+have sdy : size (drop sz ys) = (n * sz)%N by rewrite size_drop sy mulSn addKn.
+have sdz : size (drop sz zs) = (n * sz)%N by rewrite size_drop sz_ mulSn addKn.
+by rewrite HT // IH // mulrDr [in RHS]mulrDr mulrCA addrACA.
+Qed.
+
+Lemma tpredict_linear gs x ys zs (a : F) :
+  size ys = gsizes gs -> size zs = gsizes gs ->
+  tpredict K gs x [seq a * y.1 + y.2 | y <- zip ys zs] =
+  a * tpredict K gs x ys + tpredict K gs x zs.
+Proof.
+elim: gs x ys zs => [|[tol [xs ws]] gs IH] x ys zs.
+  by case: ys => [|y [|? ?]] //; case: zs => [|z [|? ?]].
+case: x => [|x0 x] sy sz_; first by rewrite /= mulr0 addr0.
+by apply: sum_chunks_lin => //; exact: IH.
+Qed.
+
+(* ------------------------------------------------------------------ tpredict = tlagrange, given the 1-d fact *)
+Definition basis1_spec : Prop :=
+  forall (tol kappa : F) xs ws (t : F),
+    uniq xs -> kappa != 0 -> bary_weights kappa xs ws -> admissible tol xs t ->
+    basis1 K tol xs ws t = [seq (lbase xs xk).[t] | xk <- xs].
+
+Lemma tpredict_is_lagrange_of gs x ys : basis1_spec ->
+  (forall g, g \in gs -> valid_grid g) -> all_admissible gs x -> size ys = gsizes gs ->
+  tpredict K gs x ys = tlagrange gs x ys.
+Proof.
+move=> B1; elim: gs x ys => [|[tol [xs ws]] gs IH] x ys Hv [sx Had] sy.
+  by rewrite /= hd_head.
+case: x sx Had => [|x0 x] // [sx] Had.
+have [Uxs [_ [kappa [k0 Hw]]]] := Hv (tol, (xs, ws)) (mem_head _ _).
+have Ax0 : admissible tol xs x0 by exact: (Had 0%N).
+rewrite /= (B1 tol kappa) // length_size.
+rewrite (@sumF_map2 _ _ _ 0 [::]) ?size_map ?size_chunks //.
+apply: eq_bigr => j _ /=.
+rewrite (nth_map 0) // nth_chunks // IH //.
+- by move=> g gin; apply: Hv; rewrite inE gin orbT.
+- by split=> // k klt; exact: (Had k.+1).
+- rewrite size_takel // size_drop sy gsizes_cons /= -mulnBl leq_pmull //.
+  by rewrite subn_gt0.
+Qed.
+
+Lemma misc_predict_formula_of (terms : seq (F * (seq (grid (F:=F)) * seq F))) x : basis1_spec ->
+  (forall t, t \in terms -> (forall g, g \in t.2.1 -> valid_grid g) /\ all_admissible t.2.1 x /\
+                            size t.2.2 = gsizes t.2.1) ->
+  misc_predict K terms x = \sum_(t <- terms) t.1 * tlagrange t.2.1 x t.2.2.
+Proof.
+move=> B1 H; rewrite /misc_predict lfilter_filter lmap_map sumFE big_map big_filter big_mkcond /=.
+rewrite big_seq [RHS]big_seq; apply: eq_bigr => t tin.
+case: eqP => [->|_] /=; first by rewrite mul0r.
+by have [Hv [Ha Hs]] := H t tin; rewrite tpredict_is_lagrange_of.
+Qed.
+
+(* ------------------------------------------------------------------ with the 1-d facts of Lagr1d.v *)
+Lemma tpredict_is_lagrange gs x ys :
+  (forall g, g \in gs -> valid_grid g) -> all_admissible gs x -> size ys = gsizes gs ->
+  tpredict K gs x ys = tlagrange gs x ys.
+Proof. by apply: tpredict_is_lagrange_of => tol kappa xs ws t; exact: basis_is_lagrange. Qed.
+
+Lemma misc_predict_formula (terms : seq (F * (seq (grid (F:=F)) * seq F))) x :
+  (forall t, t \in terms -> (forall g, g \in t.2.1 -> valid_grid g) /\ all_admissible t.2.1 x /\
+                            size t.2.2 = gsizes t.2.1) ->
+  misc_predict K terms x = \sum_(t <- terms) t.1 * tlagrange t.2.1 x t.2.2.
+Proof. by apply: misc_predict_formula_of => tol kappa xs ws t; exact: basis_is_lagrange. Qed.
+
+Lemma tlagrange_exact_product gs (ps : seq {poly F}) x :
+  (forall g, g \in gs -> uniq g.2.1) -> size ps = size gs -> size x = size gs ->
+  (forall k, (k < size gs)%N -> (size (nth 0%R ps k) <= size (nth (0%R, ([::], [::])) gs k).2.1)%N) ->
+  tlagrange gs x (tensor_data gs [seq horner p | p <- ps]) = \prod_(k < size gs) (nth 0 ps k).[nth 0 x k].
+Proof.
+move=> Hu sp sx Hdeg; rewrite tlagrange_product ?size_map //.
+apply: eq_bigr => k _; rewrite (nth_map 0) ?sp //.
+rewrite interp_poly_exact //; last exact: Hdeg.
+by apply: Hu; rewrite mem_nth.
 Qed.
 
 End Tensor.
